@@ -259,10 +259,14 @@ Definition opt_i (ts : list tok) : bool * list tok :=
   | _ => (false, ts)
   end.
 
+(** [imag!(0.0)] and [real!(0.0)] are the same complex number *)
+Definition norm_im (im : bool) (v : numval) : bool :=
+  match v with VInt 0 => false | _ => im end.
+
 Definition immediate (ts : list tok) : option (bool * numval * list tok) :=
   match ts with
-  | TInt n :: r => let '(im, r') := opt_i r in Some (im, val_of_int n, r')
-  | TFloat f :: r => let '(im, r') := opt_i r in Some (im, val_of_flit f, r')
+  | TInt n :: r => let '(im, r') := opt_i r in Some (norm_im im (val_of_int n), val_of_int n, r')
+  | TFloat f :: r => let '(im, r') := opt_i r in Some (norm_im im (val_of_flit f), val_of_flit f, r')
   | _ => None
   end.
 
@@ -275,44 +279,50 @@ Definition close_paren {A} (r : res A) : res A :=
   | o => o
   end.
 
+(** the primary of [parse]: a number, a variable, an identifier form or a parenthesised expression;
+    [pe] is the recursive call [parse _ Lowest] *)
+Definition primary (pe : list tok -> res expr) (ts : list tok) : res expr :=
+  match immediate ts with
+  | Some (im, v, r) => Ok (ENum im v) r
+  | None =>
+      match ts with
+      | TVar x :: r => Ok (EVar x) r
+      | TId x :: r =>
+          match brackets r with
+          | Some (i, r') => Ok (EAddr x i) r'
+          | None =>
+              match ident_class x with
+              | None => Ok (EAddr x 0%N) r
+              | Some RI => Ok (ENum true one_lit) r
+              | Some RPi => Ok EPi r
+              | Some fn =>
+                  match r with
+                  | TLParen :: r1 =>
+                      match close_paren (pe r1) with
+                      | Ok e r2 => Ok (EFn fn e) r2
+                      | o => o
+                      end
+                  | _ => Err
+                  end
+              end
+          end
+      | TLParen :: r => close_paren (pe r)
+      | _ => Err
+      end
+  end.
+
+(** [opt(parse_prefix)] *)
+Definition strip_minus (ts : list tok) : bool * list tok :=
+  match ts with TOp OMinus :: r => (true, r) | _ => (false, ts) end.
+
 (** [parse]: optional prefix minus, primary, then the infix loop while the next operator binds
     tighter than [p].  The prefix applies to the primary only. *)
 Fixpoint parse_e (fuel : nat) (p : nat) (ts : list tok) {struct fuel} : res expr :=
   match fuel with
   | O => Fuel
   | S f =>
-      let '(neg, ts1) :=
-        match ts with TOp OMinus :: r => (true, r) | _ => (false, ts) end in
-      let prim : res expr :=
-        match immediate ts1 with
-        | Some (im, v, r) => Ok (ENum im v) r
-        | None =>
-            match ts1 with
-            | TVar x :: r => Ok (EVar x) r
-            | TId x :: r =>
-                match brackets r with
-                | Some (i, r') => Ok (EAddr x i) r'
-                | None =>
-                match ident_class x with
-                | None => Ok (EAddr x 0%N) r
-                | Some RI => Ok (ENum true one_lit) r
-                | Some RPi => Ok EPi r
-                | Some fn =>
-                    match r with
-                    | TLParen :: r1 =>
-                        match close_paren (parse_e f 0 r1) with
-                        | Ok e r2 => Ok (EFn fn e) r2
-                        | o => o
-                        end
-                    | _ => Err
-                    end
-                end
-                end
-            | TLParen :: r => close_paren (parse_e f 0 r)
-            | _ => Err
-            end
-        end in
-      match prim with
+      let '(neg, ts1) := strip_minus ts in
+      match primary (parse_e f 0) ts1 with
       | Ok e r => loop_e f p (if neg then ENeg e else e) r
       | o => o
       end
